@@ -284,3 +284,53 @@ def shrink(lines, still_fails):
             else:
                 i += 1
     return cur
+
+
+# ---- XML round trip of diff lists: sizes across the built-in exporter's 16384-byte first-pass buffer ----
+XML_TOPO = "topo synthetic pack:2 pu:2"
+
+
+def xml_probe():
+    """one INFO entry with a 100-character value: its exported length calibrates the tuned cases"""
+    return ["case xmlprobe", "xmlbackend 0 0", XML_TOPO, "xmlhand 1", "D a 1 0 info s58 s61 @100", "end"]
+
+
+def _mixed_entries(rng, n):
+    out = []
+    for k in range(n):
+        c = k % 3
+        if c == 0:
+            out.append("D a -3 %d size 0 %d %d" % (k, rng.randint(0, 2 ** 40), rng.randint(0, 2 ** 63)))
+        elif c == 1:
+            out.append("D a 1 %d name - %s %s" % (k, hx("n%d" % k), hx("new <%d> & \"q\"" % k)))
+        else:
+            out.append("D a 2 %d info %s %s %s" % (k, hx("Key%d" % (k % 7)), hx("v%d" % k), hx("w'%d" % k)))
+    return out
+
+
+def xml_cases(rng, base, tier):
+    cases = []
+    combos = [(0, 0), (0, 1), (1, 0), (1, 1)]
+    counts_full = [1, 2, 3, 10, 50, 100, 110, 115, 118, 119, 120, 121, 122, 123, 124, 125, 126, 127, 128, 129, 130, 140,
+                   150, 200, 300, 400]
+    if tier == "thorough":
+        counts_full = list(range(1, 401))
+    for e, i in combos:
+        counts = counts_full if e == 0 else [1, 100, 128, 400]
+        if e == 0 and i == 1 and tier != "thorough":
+            counts = [1, 100, 120, 125, 128, 200, 400]
+        for n in counts:
+            cases.append(["case xml-e%d-i%d-n%d" % (e, i, n), "xmlbackend %d %d" % (e, i), XML_TOPO, "xmlhand %d" % n] +
+                         _mixed_entries(rng, n) + ["end"])
+        # exported length (including the final NUL) right around 16384, the next power of two, and well beyond
+        if base is not None:
+            for target in [16000, 16382, 16383, 16384, 16385, 16386, 17000, 32767, 32768, 32769, 40000, 100000]:
+                L = target - base
+                if L > 0:
+                    cases.append(["case xml-e%d-i%d-len%d" % (e, i, target), "xmlbackend %d %d" % (e, i), XML_TOPO,
+                                  "xmlhand 1", "D a 1 0 info s58 s61 @%d" % L, "end"])
+        # long names and values with characters the exporter escapes, two long entries
+        for ln, lv in [(300, 5000), (2000, 16000), (9000, 9000)]:
+            cases.append(["case xml-e%d-i%d-esc%d-%d" % (e, i, ln, lv), "xmlbackend %d %d" % (e, i), XML_TOPO, "xmlhand 2",
+                          "D a 1 0 info @%d:e @%d:e @%d" % (ln, lv, lv), "D a 1 1 name - @%d @%d:e" % (lv, ln), "end"])
+    return cases
